@@ -85,11 +85,11 @@ def _case(draw):
 
 def drivers(tier):
     th = tier == 'thorough'
-    ds = [dict(kind='hyp', name='routes', strategy=_case(), examples=60000 if th else 6000)]
+    ds = [dict(kind='hyp', name='routes', strategy=_case(), examples=200000 if th else 20000)]
     try:
         from . import c03_model
         ds.append(dict(kind='hyp', name='model', strategy=c03_model.strategy(),
-                       examples=5000 if th else 400))
+                       examples=15000 if th else 1500))
     except ImportError:
         pass
     return ds
